@@ -248,6 +248,10 @@ def run_case(case, seed):
         alg.update()
         k += 1
         states += 1
+        if alg.not_positive_definite:
+            # the instance IS Hermitian positive definite (spectrum chosen >= 0.25 > 0)
+            V("false-breakdown", "not_positive_definite was set at update %d on a positive-definite system (smallest eigenvalue %.3g)" % (k, float(ev.min())))
+            break
         if k == 1 and case.get("derive") == "during":
             derived = [Aop + 0.5 * sp.linop.Identity([n, 1]), Aop - Aop, sp.linop.Add([Aop, Aop])]
         if alg.x is not xc:
